@@ -1543,3 +1543,140 @@ def run(ctx) -> None:  # noqa: F811
     _inner_run_c37c(ctx)
     if pending is not None:
         raise pending
+
+
+# ---- added after the seeded change C37-r4seed1: the stencil is the one of the REQUESTED accuracy
+_inner_run_c37d = run
+
+
+def _requested(ctx) -> int:
+    from ..rules import asgiven
+
+    repo = ctx.repo
+    mod = repo.module(FD)
+    fdc = repo.function(FD, "finite_difference_coefficients")
+    cls = repo.cls(FD, "LaplaceOperator")
+    funcs = list(mod.functions.values()) + [m for defs in cls.methods.values() for m in defs]
+    dfs = {id(f): DataFlow(f.node) for f in funcs}
+
+    def at_of(f, node):
+        df = dfs[id(f)]
+        for st in ast.walk(f.node):
+            if isinstance(st, ast.stmt) and not isinstance(st, (ast.FunctionDef, ast.If, ast.For, ast.While, ast.With, ast.Try)):
+                if any(n is node for n in walk_no_nested(st)):
+                    return df.cfg.node_of(st).idx
+        raise AnalysisError(f"{f.qualname}: statement of `{norm_text(node)[:40]}` not found")
+
+    # base role: the parameter that selects the literal table
+    roles: dict[str, set] = {}
+    for s in walk_no_nested(fdc.node):
+        if isinstance(s, ast.Subscript) and dotted(s.value) == "fd_coefficients":
+            o = asgiven.origins(fdc, dfs[id(fdc)], s.slice, at_of(fdc, s))
+            if len(o) == 1 and next(iter(o))[0] == "param":
+                roles.setdefault(fdc.name, set()).add(next(iter(o))[1])
+    ctx.require(bool(roles), f"{fdc.qualname}: the parameter that selects the coefficient table was not identified")
+    sites = []
+    changed = True
+    while changed:
+        changed = False
+        sites = []
+        for f in funcs:
+            for c in walk_no_nested(f.node):
+                if not (isinstance(c, ast.Call) and isinstance(c.func, ast.Name) and c.func.id in roles
+                        and c.func.id in mod.functions):
+                    continue
+                g = mod.functions[c.func.id]
+                b = bind_args(c, g)
+                for r in sorted(roles[g.name]):
+                    arg = b.get(r)
+                    if arg is None:
+                        sites.append((f, c, g, r, None))
+                        continue
+                    o = asgiven.origins(f, dfs[id(f)], arg, at_of(f, c))
+                    sites.append((f, c, g, r, o))
+                    if len(o) == 1 and next(iter(o))[0] == "param" and f.cls is None:
+                        p_ = next(iter(o))[1]
+                        if p_ not in roles.setdefault(f.name, set()):
+                            roles[f.name].add(p_)
+                            changed = True
+    n = 0
+    attrs = set()
+    for f, c, g, r, o in sites:
+        n += 1
+        if o is None:
+            ctx.violation("R-REQUESTED", f"{f.qualname}:{g.name}:{r}", f.loc(c),
+                          f"`{norm_text(c)[:70]}` does not pass `{r}`: the callee's default order is used whatever was "
+                          "requested", key_detail="forward")
+            continue
+        bad = sorted(asgiven.describe(x) for x in o if x[0] in ("computed", "const"))
+        attrs |= {x[1] for x in o if x[0] == "attr"}
+        ctx.check(not bad, "R-REQUESTED", f"{f.qualname}:{g.name}:{r}", f.loc(c),
+                  f"`{r}` of {g.name} <- " + ", ".join(sorted(asgiven.describe(x) for x in o)),
+                  f"`{r}` of {g.name} can be " + ", ".join(bad) + ": the stencil applied is not the one of the requested "
+                  "accuracy (e.g. silently lowered on small grids), so a plane wave is multiplied by the eigenvalue of a "
+                  "different stencil", key_detail="forward")
+    # the attribute the methods read is the constructor argument, stored as given
+    for a in sorted(attrs):
+        if not a.startswith("self."):
+            continue
+        stores = []
+        for defs in cls.methods.values():
+            for m in defs:
+                for st in ast.walk(m.node):
+                    if isinstance(st, ast.Assign) and any(dotted(t) == a for t in st.targets):
+                        stores.append((m, st))
+        ctx.require(bool(stores), f"LaplaceOperator: `{a}` is never assigned")
+        for m, st in stores:
+            o = asgiven.origins(m, dfs[id(m)], st.value, dfs[id(m)].cfg.node_of(st).idx)
+            bad = sorted(asgiven.describe(x) for x in o if x[0] != "param")
+            n += 1
+            ctx.check(not bad, "R-REQUESTED", f"{m.qualname}:{a}", m.loc(st),
+                      f"{a} <- " + ", ".join(sorted(asgiven.describe(x) for x in o)),
+                      f"`{a}` is set from " + ", ".join(bad) + ", not from the constructor argument as given",
+                      key_detail="stored")
+    # every construction of the operator passes an order taken as it is from the caller's configuration
+    init = cls.methods.get("__init__", [None])[0]
+    ctx.require(init is not None, "LaplaceOperator.__init__ not found")
+    for modname in ("abtem.multislice", FD):
+        m2 = repo.module(modname)
+        fl = list(m2.functions.values()) + [m for c_ in m2.classes.values() for defs in c_.methods.values() for m in defs]
+        for f in fl:
+            for c in walk_no_nested(f.node):
+                if isinstance(c, ast.Call) and (dotted(c.func) or "").split(".")[-1] == "LaplaceOperator":
+                    df = DataFlow(f.node)
+                    arg = c.args[0] if c.args else kw(c, init.positional_params[1])
+                    ctx.require(arg is not None, f"{f.qualname}: LaplaceOperator(...) without an accuracy")
+                    at = None
+                    for st in ast.walk(f.node):
+                        if isinstance(st, ast.stmt) and not isinstance(st, (ast.FunctionDef, ast.If, ast.For, ast.While, ast.With, ast.Try)) \
+                                and any(x is c for x in walk_no_nested(st)):
+                            at = df.cfg.node_of(st).idx
+                    ctx.require(at is not None, f"{f.qualname}: statement of LaplaceOperator(...) not found")
+                    o = asgiven.origins(f, df, arg, at)
+                    bad = sorted(asgiven.describe(x) for x in o if x[0] in ("computed", "const"))
+                    n += 1
+                    ctx.check(not bad, "R-REQUESTED", f"{f.qualname}:LaplaceOperator", f.loc(c),
+                              "accuracy <- " + ", ".join(sorted(asgiven.describe(x) for x in o)),
+                              "the operator is built with " + ", ".join(bad) + " instead of the configured derivative "
+                              "accuracy", key_detail="construct")
+    return n
+
+
+def run(ctx) -> None:  # noqa: F811
+    ctx.rule("R-REQUESTED", "the accuracy order reaches the coefficient table exactly as requested: starting from the "
+             "parameter that selects the literal table in finite_difference_coefficients, every call that feeds it (through "
+             "any chain of module functions, found by fixpoint) passes a parameter or the operator's stored attribute "
+             "unchanged — reaching definitions admit plain assignments and int()/float() only, no arithmetic, min/max or "
+             "constant; the attribute is the constructor argument stored as given, and every LaplaceOperator(...) in the "
+             "package is built from the configured derivative accuracy.  The property is stated for the stencil of ANY "
+             "accuracy: a periodic stencil wider than the grid is well defined, and replacing it by another order "
+             "changes the eigenvalue")
+    pending = None
+    try:
+        n = _requested(ctx)
+        ctx.require(n >= 6, f"R-REQUESTED examined only {n} instances")
+    except AnalysisError as e:
+        pending = e
+    _inner_run_c37d(ctx)
+    if pending is not None:
+        raise pending
